@@ -56,6 +56,34 @@ def popOpt (q : Quals) (k : String) : E (Option String) :=
   | some [] => throw "IndexError"
   | none => pure none
 
+/-- `sec_met = leftovers.pop("sec_met_domain", None); if sec_met: SecMetQualifier.from_biopython(sec_met)` -/
+def readSecMet (l : Quals) : E (List SMDom) :=
+  match Q.get? l "sec_met_domain" with
+  | some (v :: vs) => smFromQualifier (v :: vs)
+  | _ => pure []
+
+/-- `gene_functions = leftovers.pop("gene_functions", []); if gene_functions: add_from_qualifier(gene_functions)` -/
+def readGeneFns (l : Quals) : E (List Annot) :=
+  match Q.get? l "gene_functions" with
+  | some (v :: vs) => annFromQualifier [] (v :: vs)
+  | _ => pure []
+
+/-- the record's table unless the feature has its own -/
+def readTable (defaultTable : Int) (l : Quals) : E Int :=
+  match Q.get? l "transl_table" with
+  | none => pure defaultTable
+  | some [] => throw "IndexError"
+  | some (t :: _) => match intOfStr t with
+    | some i => pure i
+    | none => throw "value-error"
+
+/-- the location the translation has to fit: shifted by a codon start, if there is one -/
+def readShifted (loc : Loc) (l : Quals) : E Loc :=
+  match Q.get? l "codon_start" with
+  | some (s :: _) => do let d ← firstDigit s; frameshift loc d false
+  | some [] => throw "IndexError"
+  | none => pure loc
+
 /-- `CDSFeature.from_biopython`; `defaultTable` is the record's translation table -/
 def Cds.fromBio (defaultTable : Int) (trOK : String → Loc → Bool) (b : Bio) : E Cds := do
   let l := b.quals
@@ -69,34 +97,20 @@ def Cds.fromBio (defaultTable : Int) (trOK : String → Loc → Bool) (b : Bio) 
   let named (o : Option String) : Bool := !(o.getD "").isEmpty
   if !(named gene || named proteinId || named locusTag) then throw "unsupported"
   else
-    let table ← match Q.get? l "transl_table" with
-      | none => pure defaultTable
-      | some [] => throw "IndexError"
-      | some (t :: _) => match intOfStr t with
-        | some i => pure i
-        | none => throw "value-error"
+    let table ← readTable defaultTable l
     let l := Q.erase l "transl_table"
     if !(b.loc.strand == .fwd || b.loc.strand == .rev) then throw "value-error"
     else
-      let loc ← match Q.get? l "codon_start" with
-        | some (s :: _) => do
-          match ← (do let d ← firstDigit s; frameshift b.loc d false : E Loc) with
-          | x => pure x
-        | some [] => throw "IndexError"
-        | none => pure b.loc
+      let loc ← readShifted b.loc l
       let translation ← firstOr l "translation"
       let l := Q.erase l "translation"
       if translation.isEmpty || !trOK translation loc then throw "value-error"
       else
         let product ← firstOr l "product"
         let l := Q.erase l "product"
-        let secMet ← match Q.get? l "sec_met_domain" with
-          | some (v :: vs) => smFromQualifier (v :: vs)
-          | _ => pure []
+        let secMet ← readSecMet l
         let l := Q.erase l "sec_met_domain"
-        let geneFns ← match Q.get? l "gene_functions" with
-          | some (v :: vs) => annFromQualifier [] (v :: vs)
-          | _ => pure []
+        let geneFns ← readGeneFns l
         let l := Q.erase l "gene_functions"
         if !((Q.get? l "NRPS_PKS").getD []).isEmpty then throw "unsupported"
         else
